@@ -678,9 +678,15 @@ func validateLine(line string) error {
 
 // validatePath checks that an address can be put between the angle brackets of a MAIL FROM or
 // RCPT TO command as it is. Addresses that would need quoting are refused instead of being sent
-// unquoted, where a blank or an angle bracket would add arguments to the command line.
+// unquoted, where a blank or an angle bracket would add arguments to the command line and a
+// special character in the local part (an at sign, a colon, a comma, ...) would make the path
+// denote a different mailbox or a source route.
 func validatePath(addr string) error {
-	if strings.ContainsAny(addr, " \t<>") {
+	local := addr
+	if at := strings.LastIndex(addr, "@"); at >= 0 {
+		local = addr[:at]
+	}
+	if strings.ContainsAny(addr, " \t<>") || strings.ContainsAny(local, "()[]:;@\\,\"") {
 		return errors.New("smtp: address contains characters that require quoting")
 	}
 	return nil
